@@ -172,8 +172,15 @@ Definition is_nil {A : Type} (l : list A) : bool := match l with [] => true | _ 
 Definition sa_attr_names (k : cls_spec) : list string :=
   map a_name (filter (in_sa_attrs (effective_cls_on_setattr k)) (k_attrs k)).
 
-(** One class statement (+ decorator).  [None]: the definition raises ValueError. *)
+(** A class statement can only name classes that exist already. *)
+Definition bases_exist (t : table) (d : cdef) : bool :=
+  forallb (fun j => Nat.ltb j (List.length t)) (f_mro d) &&
+  forallb (fun j => Nat.ltb j (List.length t)) (f_bases d).
+
+(** One class statement (+ decorator).  [None]: the definition raises (ValueError from
+    attrs; NameError for a base that does not exist yet). *)
 Definition define_class (t : table) (d : cdef) : option klass :=
+  if negb (bases_exist t d) then None else
   let own_sa0 := if f_user_sa d then Some SaUser else None in
   let own_da0 := if f_user_da d then Some DaUser else None in
   let exc := f_root_exc d || existsb (class_exc t) (f_bases d) in
